@@ -31,11 +31,16 @@ class Evaluator(Unit):
             shape_ok = r.random() < 0.85
             cnt = {0: 1, 1: n, 2: m, 3: m * n, 4: n * n}[comp]
             vals = [g.dy(kmax=8, jmax=1) for _ in range(cnt)]
+            if comp >= 3 and k % 2 == 1:
+                vals = [0.0 if r.random() < 0.35 else v for v in vals]
             if r.random() < 0.5 and cnt:
                 for _ in range(r.randint(1, 2)):
                     vals[r.randrange(cnt)] = r.choice(BAD)
             cases.append({"comp": comp, "n": n, "m": m, "shape_ok": shape_ok, "vals": [v if np.isfinite(v) else repr(v) for v in vals],
-                          "warm": len(cases) % 3 == 1})
+                          "warm": len(cases) % 3 == 1,
+                          # stored pattern of the matrices: every entry, or exact zeros left out at random (the same
+                          # matrix; for a Hessian the stored pattern is then in general not symmetric)
+                          "drop": [r.random() < 0.5 for _ in range(cnt)] if (comp >= 3 and k % 2 == 1) else None})
         return cases
 
     def impl(self, case):
@@ -46,7 +51,11 @@ class Evaluator(Unit):
         bad_shape = not case["shape_ok"]
         def mat(rows, cols):
             M = vals.reshape(rows, cols) if vals.size else np.zeros((rows, cols))
-            S = sps.coo_matrix((M.ravel(), (np.repeat(np.arange(rows), cols), np.tile(np.arange(cols), rows))), shape=(rows, cols))
+            rr, cc, dd = np.repeat(np.arange(rows), cols), np.tile(np.arange(cols), rows), M.ravel()
+            if case.get("drop") and vals.size:
+                keep = np.array([not (d and v == 0.0) for d, v in zip(case["drop"], dd)], dtype=bool)
+                rr, cc, dd = rr[keep], cc[keep], dd[keep]
+            S = sps.coo_matrix((dd, (rr, cc)), shape=(rows, cols))
             if bad_shape:
                 S = sps.coo_matrix((S.data, (S.row, S.col)), shape=(rows + 1, cols))
             return S
